@@ -144,42 +144,45 @@ func runC12(c *Ctx) {
 		if v == nil && len(ret.Results) == 1 {
 			v = ret.Results[0]
 		}
-		d := describe(v)
 		facts := factsAt(ret)
-		switch cl := strip(v).(type) {
-		case *ssa.Call:
-			switch calleeName(&cl.Call) {
-			case "godev/internal/content.Error":
-				code, isC := intConst(cl.Call.Args[1])
-				r.Check("C12.status-classes", fmt.Sprintf("handleUpload/content.Error %d", code), gd.Pos(ret.Pos()), isC && code >= 400 && code < 500, "request-derived failures must answer a constant 4xx; got "+d)
-			case "godev/internal/content.Status":
-				code, isC := intConst(cl.Call.Args[1])
-				switch {
-				case isC && code == 200:
-					okAfter := false
-					for _, cs := range callsIn(h, "(*encoding/json.Encoder).Encode") {
-						if hasFact(facts, errNilOf(cs.(*ssa.Call))) {
-							okAfter = true
+		// a result merged from several exits (a phi) is classified exit by exit
+		for _, v := range alternatives(v, facts) {
+			d := describe(v)
+			switch cl := strip(v).(type) {
+			case *ssa.Call:
+				switch calleeName(&cl.Call) {
+				case "godev/internal/content.Error":
+					code, isC := intConst(cl.Call.Args[1])
+					r.Check("C12.status-classes", fmt.Sprintf("handleUpload/content.Error %d", code), gd.Pos(ret.Pos()), isC && code >= 400 && code < 500, "request-derived failures must answer a constant 4xx; got "+d)
+				case "godev/internal/content.Status":
+					code, isC := intConst(cl.Call.Args[1])
+					switch {
+					case isC && code == 200:
+						okAfter := false
+						for _, cs := range callsIn(h, "(*encoding/json.Encoder).Encode") {
+							if hasFact(facts, errNilOf(cs.(*ssa.Call))) {
+								okAfter = true
+							}
 						}
+						r.Check("C12.status-classes", "handleUpload/200 only after the object was written", gd.Pos(ret.Pos()), okAfter, "OK must be answered only after Encode returned nil")
+					case isC && code == 405:
+						notPost := hasFact(facts, strEq(func(v ssa.Value) bool { _, f, ok := fieldLoad(v); return ok && f == "Method" }, "POST", false))
+						r.Check("C12.status-classes", "handleUpload/405 for other methods", gd.Pos(ret.Pos()), notPost, "405 only when the method is not POST")
+					default:
+						r.Check("C12.status-classes", "handleUpload/status "+d, gd.Pos(ret.Pos()), false, "unexpected status")
 					}
-					r.Check("C12.status-classes", "handleUpload/200 only after the object was written", gd.Pos(ret.Pos()), okAfter, "OK must be answered only after Encode returned nil")
-				case isC && code == 405:
-					notPost := hasFact(facts, strEq(func(v ssa.Value) bool { _, f, ok := fieldLoad(v); return ok && f == "Method" }, "POST", false))
-					r.Check("C12.status-classes", "handleUpload/405 for other methods", gd.Pos(ret.Pos()), notPost, "405 only when the method is not POST")
 				default:
-					r.Check("C12.status-classes", "handleUpload/status "+d, gd.Pos(ret.Pos()), false, "unexpected status")
+					// bare error from a storage call
+					okStorage := strings.HasSuffix(calleeName(&cl.Call), ".WriteCloser).Close") || strings.HasSuffix(calleeName(&cl.Call), ".Encoder).Encode")
+					r.Check("C12.status-classes", "handleUpload/bare error from "+calleeName(&cl.Call), gd.Pos(ret.Pos()), okStorage, "a bare error (answered 500) may only come from a storage call, never from the request")
 				}
+			case *ssa.Extract:
+				tc, _ := cl.Tuple.(*ssa.Call)
+				okStorage := tc != nil && strings.HasSuffix(calleeName(&tc.Call), ".ObjectHandle).NewWriter")
+				r.Check("C12.status-classes", "handleUpload/bare error "+d, gd.Pos(ret.Pos()), okStorage, "a bare error (answered 500) may only come from a storage call")
 			default:
-				// bare error from a storage call
-				okStorage := strings.HasSuffix(calleeName(&cl.Call), ".WriteCloser).Close") || strings.HasSuffix(calleeName(&cl.Call), ".Encoder).Encode")
-				r.Check("C12.status-classes", "handleUpload/bare error from "+calleeName(&cl.Call), gd.Pos(ret.Pos()), okStorage, "a bare error (answered 500) may only come from a storage call, never from the request")
+				r.Check("C12.status-classes", "handleUpload/result "+d, gd.Pos(ret.Pos()), false, "unclassified result")
 			}
-		case *ssa.Extract:
-			tc, _ := cl.Tuple.(*ssa.Call)
-			okStorage := tc != nil && strings.HasSuffix(calleeName(&tc.Call), ".ObjectHandle).NewWriter")
-			r.Check("C12.status-classes", "handleUpload/bare error "+d, gd.Pos(ret.Pos()), okStorage, "a bare error (answered 500) may only come from a storage call")
-		default:
-			r.Check("C12.status-classes", "handleUpload/result "+d, gd.Pos(ret.Pos()), false, "unclassified result")
 		}
 	}
 	// handleErr maps *contentError to its code
